@@ -157,6 +157,71 @@ def has_direct_effects(func_node: ast.AST) -> bool:
     return False
 
 
+def comprehensionise(stmts: List[ast.stmt]) -> List[ast.stmt]:
+    """X = set() / [] / {} followed (next statement) by a loop nest whose only effect is X.add(E) / X.append(E) / X[K] = V,
+    possibly under `if`s, is the comprehension {E for ... if ...}: rewrite it, so that an accumulator loop and the
+    comprehension a refactoring turns it into have the same description."""
+    out: List[ast.stmt] = []
+    i = 0
+    stmts = list(stmts)
+    while i < len(stmts):
+        st = stmts[i]
+        done = False
+        if isinstance(st, ast.Assign) and len(st.targets) == 1 and isinstance(st.targets[0], ast.Name) and i + 1 < len(stmts) and isinstance(stmts[i + 1], ast.For):
+            nm = st.targets[0].id
+            v = st.value
+            kind = None
+            if (isinstance(v, ast.Call) and dotted(v.func) == "set" and not v.args) :
+                kind = "set"
+            elif (isinstance(v, ast.List) and not v.elts) or (isinstance(v, ast.Call) and dotted(v.func) == "list" and not v.args):
+                kind = "list"
+            elif (isinstance(v, ast.Dict) and not v.keys) or (isinstance(v, ast.Call) and dotted(v.func) == "dict" and not v.args):
+                kind = "dict"
+            if kind:
+                gens: List[ast.comprehension] = []
+                cur: ast.stmt = stmts[i + 1]
+                ok = True
+                leaf = None
+                while ok:
+                    if isinstance(cur, ast.For) and not cur.orelse and len(cur.body) == 1:
+                        gens.append(ast.comprehension(target=cur.target, iter=cur.iter, ifs=[], is_async=0))
+                        cur = cur.body[0]
+                    elif isinstance(cur, ast.If) and not cur.orelse and len(cur.body) == 1 and gens:
+                        gens[-1].ifs.append(cur.test)
+                        cur = cur.body[0]
+                    else:
+                        leaf = cur
+                        break
+                comp = None
+                uses_self = lambda e: any(isinstance(n, ast.Name) and n.id == nm for n in ast.walk(e))
+                if leaf is not None and gens and not any(uses_self(g.iter) or any(uses_self(c) for c in g.ifs) for g in gens):
+                    if kind in ("set", "list") and isinstance(leaf, ast.Expr) and isinstance(leaf.value, ast.Call) and isinstance(leaf.value.func, ast.Attribute) and \
+                            dotted(leaf.value.func.value) == nm and leaf.value.func.attr == ("add" if kind == "set" else "append") and len(leaf.value.args) == 1 and \
+                            not uses_self(leaf.value.args[0]):
+                        comp = (ast.SetComp if kind == "set" else ast.ListComp)(elt=leaf.value.args[0], generators=gens)
+                    elif kind == "dict" and isinstance(leaf, ast.Assign) and len(leaf.targets) == 1 and isinstance(leaf.targets[0], ast.Subscript) and \
+                            dotted(leaf.targets[0].value) == nm and not uses_self(leaf.value) and not uses_self(leaf.targets[0].slice):
+                        comp = ast.DictComp(key=leaf.targets[0].slice, value=leaf.value, generators=gens)
+                if comp is not None:
+                    new = ast.Assign(targets=[ast.Name(id=nm, ctx=ast.Store())], value=comp, lineno=st.lineno)
+                    ast.copy_location(new, st)
+                    ast.fix_missing_locations(new)
+                    out.append(new)
+                    i += 2
+                    done = True
+        if not done:
+            # recurse into compound statements
+            st2 = st
+            if isinstance(st, (ast.If, ast.For, ast.While, ast.With, ast.Try)):
+                st2 = copy.copy(st)
+                for fld in ("body", "orelse", "finalbody"):
+                    if getattr(st2, fld, None):
+                        setattr(st2, fld, comprehensionise(getattr(st2, fld)))
+            out.append(st2)
+            i += 1
+    return out
+
+
 class _FnCtx:
     """per-function facts used while walking its body"""
 
@@ -164,7 +229,8 @@ class _FnCtx:
         self.func = func
         self.mutated: Set[str] = set()
         self.builders: Dict[str, list] = {}
-        node = func.node
+        self.body = comprehensionise(func.node.body)
+        node = ast.Module(body=self.body, type_ignores=[])
         for n in walk_no_nested(node):
             if isinstance(n, ast.Call) and isinstance(n.func, ast.Attribute) and isinstance(n.func.value, ast.Name) and \
                     n.func.attr in ("add", "append", "extend", "update", "insert", "remove", "discard", "pop", "clear", "setdefault"):
@@ -214,7 +280,7 @@ class Extractor:
     def run(self) -> List[Effect]:
         self.cur = _FnCtx(self.func)
         self.stack = [self.func.name]
-        self._block(self.func.node.body, [], {})
+        self._block(self.cur.body, [], {})
         return self.effects
 
     # ------------------------------------------------------------------ helpers
@@ -479,7 +545,7 @@ class Extractor:
         self.cur = _FnCtx(callee)
         self.stack.append(callee.name)
         try:
-            out = self._block(callee.node.body, ctx, env_c)
+            out = self._block(self.cur.body, ctx, env_c)
         finally:
             self.stack.pop()
             self.cur = saved
@@ -497,13 +563,55 @@ class Extractor:
                 return True
         return False
 
+    def _attrs_written(self, f: FuncInfo, seen: Set[str], depth=0) -> Optional[Set[str]]:
+        """self attributes a method may (re)bind or mutate, transitively through self calls; None = unknown"""
+        if f.qualname in seen:
+            return set()
+        if depth > 4:
+            return None
+        seen.add(f.qualname)
+        out: Set[str] = set()
+        for n in walk_no_nested(f.node):
+            tg = []
+            if isinstance(n, ast.Assign):
+                tg = n.targets
+            elif isinstance(n, (ast.AugAssign, ast.AnnAssign)):
+                tg = [n.target]
+            elif isinstance(n, ast.Delete):
+                tg = n.targets
+            for t in tg:
+                for x in ast.walk(t):
+                    d = dotted(x) if isinstance(x, ast.Attribute) else None
+                    if d and d.startswith("self."):
+                        out.add(".".join(d.split(".")[:2]))
+            if isinstance(n, ast.Call) and isinstance(n.func, ast.Attribute):
+                d = dotted(n.func.value) or ""
+                if d.startswith("self.") and n.func.attr in ("add", "append", "extend", "update", "insert", "remove", "discard", "pop", "clear", "setdefault", "sort", "reverse"):
+                    out.add(".".join(d.split(".")[:2]))
+                if d == "self":
+                    r = self._resolve_self_method(n)
+                    if r is None:
+                        return None
+                    sub = self._attrs_written(r[1], seen, depth + 1)
+                    if sub is None:
+                        return None
+                    out |= sub
+                if any(isinstance(a, ast.Name) and a.id == "self" for a in n.args):
+                    return None
+        return out
+
     def _kill_self_on_calls(self, node: ast.AST, env):
-        """a call of another method of self may re-assign attributes: forget their definitions"""
+        """a call of another method of self may re-assign attributes: forget the definitions it may write"""
         for c in ast.walk(node):
             if isinstance(c, ast.Call) and isinstance(c.func, ast.Attribute):
                 d = dotted(c.func.value) or ""
                 if d == "self":
-                    return {k: v for k, v in env.items() if not k.startswith("self.")}
+                    r = self._resolve_self_method(c)
+                    w = self._attrs_written(r[1], set()) if r is not None else None
+                    if w is None:
+                        return {k: v for k, v in env.items() if not k.startswith("self.")}
+                    env = {k: v for k, v in env.items() if k not in w}
+                    continue
                 if d.startswith("self.") and d in env and c.func.attr in ("add", "append", "extend", "update", "insert", "remove", "discard", "pop", "clear", "setdefault", "sort", "reverse"):
                     env = {k: v for k, v in env.items() if k != d}
         return env
@@ -1171,6 +1279,52 @@ def canon_guard(test: ast.AST, pol: bool) -> str:
     return txt if pol else f"not ({txt})"
 
 
+def _collapse_tuple_targets(node):
+    """{(a, b) for (a, b) in X}  ==  {e for e in X}: a tuple target whose names are only used re-tupled in the same order is
+    replaced by a single name"""
+    node = copy.deepcopy(node)
+    for gi, g in enumerate(node.generators):
+        t = g.target
+        if not (isinstance(t, ast.Tuple) and t.elts and all(isinstance(x, ast.Name) for x in t.elts)):
+            continue
+        names = [x.id for x in t.elts]
+        dump = ast.dump(ast.Tuple(elts=[ast.Name(id=n, ctx=ast.Load()) for n in names], ctx=ast.Load()))
+        rest: List[ast.AST] = list(g.ifs)
+        for g2 in node.generators[gi + 1:]:
+            rest += [g2.iter] + list(g2.ifs)
+        for fld in ("elt", "key", "value"):
+            if hasattr(node, fld):
+                rest.append(getattr(node, fld))
+        whole = 0
+        single = 0
+        for r in rest:
+            ids_in_whole = set()
+            for n in ast.walk(r):
+                if isinstance(n, ast.Tuple) and ast.dump(n) == dump:
+                    whole += 1
+                    ids_in_whole |= {id(x) for x in n.elts}
+            for n in ast.walk(r):
+                if isinstance(n, ast.Name) and n.id in names and id(n) not in ids_in_whole:
+                    single += 1
+        if single == 0 and whole > 0:
+            new_name = "_".join(names) + "__t"
+
+            class R(ast.NodeTransformer):
+                def visit_Tuple(self, n):
+                    if ast.dump(n) == dump:
+                        return ast.Name(id=new_name, ctx=ast.Load())
+                    return self.generic_visit(n)
+            g.target = ast.Name(id=new_name, ctx=ast.Store())
+            g.ifs = [R().visit(c) for c in g.ifs]
+            for g2 in node.generators[gi + 1:]:
+                g2.iter = R().visit(g2.iter)
+                g2.ifs = [R().visit(c) for c in g2.ifs]
+            for fld in ("elt", "key", "value"):
+                if hasattr(node, fld):
+                    setattr(node, fld, R().visit(getattr(node, fld)))
+    return node
+
+
 def _rename_comprehensions(e: ast.AST) -> ast.AST:
     """Alpha-rename names bound by comprehensions.  A bound name is renamed after its *domain*: b<crc of the canonical
     iterable text>_<position in the target>, processed top-down so that dependent domains see renamed outer names.  The
@@ -1185,6 +1339,7 @@ def _rename_comprehensions(e: ast.AST) -> ast.AST:
             mapping: Dict[str, str] = {}
             new_gens = []
             cur_used = used
+            node = _collapse_tuple_targets(node)
             for g in node.generators:
                 it = Renamer(mapping).visit(copy.deepcopy(g.iter))
                 it = process(it, cur_used)
